@@ -180,10 +180,35 @@ fn oracle_exec(case: &ExecCase, obs: &mut Obs) -> Result<(), Violation> {
     Ok(())
 }
 
+/// Straight-line programs whose length sits around the sizes at which an index or a size constant could matter
+/// (Program::MAX_SIZE = 10000, 2^15, 2^16): `PUSH 1, PUSH 2, SWAP * k, [JMPIF over a POP], PUSH 3`.
+#[derive(Clone, Debug, Hash, Serialize, Deserialize)]
+pub struct LongCase {
+    pub ops: usize,
+    pub tail_push: bool,
+}
+
+fn oracle_long(l: &LongCase, obs: &mut Obs) -> Result<(), Violation> {
+    let mut prog = vec![PUSH(1), PUSH(2)];
+    while prog.len() + 1 < l.ops {
+        prog.push(SWAP);
+    }
+    prog.push(if l.tail_push { PUSH(3) } else { POP });
+    let case = ExecCase::simple(prog);
+    oracle_exec(&case, obs)?;
+    obs.label("long");
+    obs.nontrivial();
+    Ok(())
+}
+
+fn long_case() -> impl Strategy<Value = LongCase> {
+    (prop_oneof![4 => 9_990usize..10_020, 1 => 32_760usize..32_775, 2 => 65_530usize..65_545, 1 => 3usize..70_000], any::<bool>()).prop_map(|(ops, tail_push)| LongCase { ops, tail_push })
+}
+
 pub fn property() -> Property {
     Property {
         id: "C14",
-        rule: "generated byte strings (random, opcode-biased, valid programs, an invalid opcode at any op position, a Push truncated to 0..7 immediate bytes at the end) mapped as Vec<u8>, &[u8] and Arc<[u8]> and compared with asm::from_bytes: success/failure and error kind+byte, ops(), op(i) and ops_from(i) for i in 0..len+3, op_indices vs byte offsets recomputed by RefAsm, FromIterator/push_op vs serialised bytes; generated programs (structured jumps/repeats/compute, jumps landing at/after/far beyond the end, op soup) from random machine states, gas tables and limits executed with exec_ops and exec_bytecode (owned, borrowed): equal Vm (PartialEq), equal gas or identical error rendering. Non-trivial = (mapping) a Push is present or the string is invalid; (execution) a Push and a control transfer/compute are present.",
+        rule: "generated byte strings (random, opcode-biased, valid programs, an invalid opcode at any op position, a Push truncated to 0..7 immediate bytes at the end) mapped as Vec<u8>, &[u8] and Arc<[u8]> and compared with asm::from_bytes: success/failure and error kind+byte, ops(), op(i) and ops_from(i) for i in 0..len+3, op_indices vs byte offsets recomputed by RefAsm, FromIterator/push_op vs serialised bytes; generated programs (structured jumps/repeats/compute, jumps landing at/after/far beyond the end, op soup) from random machine states, gas tables and limits executed with exec_ops and exec_bytecode (owned, borrowed): equal Vm (PartialEq), equal gas or identical error rendering; straight-line programs of 9990..10020, ~2^15, ~2^16 and random up to 70000 ops executed to the end both ways. Non-trivial = (mapping) a Push is present or the string is invalid; (execution) a Push and a control transfer/compute are present.",
         assumptions: vec!["RefAsm byte offsets are the reference for op_indices"],
         health: vec![],
         subs: vec![
@@ -205,6 +230,7 @@ pub fn property() -> Property {
                 },
                 oracle_exec,
             ),
+            prop_sub("map.long_programs", 160, 1_600, |_| long_case(), oracle_long),
         ],
     }
 }
